@@ -269,3 +269,327 @@ theorem react_after_save_restore (p : Profile) (k : Kind) (cb : Nat) (trig : Lis
   | some k' => simp only [seterrcall_save_restore]
 
 end Biom.C20
+
+/-! ### the registry itself (`ErrorProfile.register / unregister / state= / setcall / getcall / in / test`):
+every registry reachable from a fresh profile, every call — in particular `test` when several kinds fire or
+`*args` restricts the kinds visited -/
+
+namespace Biom.C20.Reg
+def RegWF (g : Registry) : Prop := (rkinds g).Nodup
+theorem find_some {g : Registry} {k : Kind} {e : Entry} (h : find g k = some e) : e ∈ g ∧ e.kind = k := by
+  unfold find at h
+  have h1 := List.mem_of_find?_eq_some h
+  have h2 := List.find?_some h
+  exact ⟨h1, by simpa using h2⟩
+theorem find_none {g : Registry} {k : Kind} : find g k = none ↔ k ∉ rkinds g := by
+  unfold find rkinds
+  rw [List.find?_eq_none]
+  simp only [List.mem_map, not_exists, not_and]
+  constructor
+  · intro h e he hk; exact absurd (by simp [hk]) (h e he)
+  · intro h e he hk; exact h e he (by simpa using hk)
+theorem sameEntries_refl (g : Registry) : sameEntries g g = true := by
+  simp [sameEntries]
+
+theorem find_of_mem_nodup {g : Registry} (hw : RegWF g) {e : Entry} (he : e ∈ g) : find g e.kind = some e := by
+  unfold RegWF rkinds at hw
+  unfold find
+  induction g with
+  | nil => cases he
+  | cons x xs ih =>
+    simp only [List.map_cons, List.nodup_cons] at hw
+    rcases List.mem_cons.mp he with rfl | h
+    · simp [List.find?]
+    · have hne : x.kind ≠ e.kind := by
+        intro heq; exact hw.1 (heq ▸ List.mem_map_of_mem (f := (·.kind)) h)
+      have : (x.kind == e.kind) = false := by simpa using hne
+      simp only [List.find?, this]
+      exact ih hw.2 h
+
+/-- the loop of `test` answers with the configured reaction of the first firing candidate -/
+theorem testLoop_spec (g : Registry) (trig : List Kind) (cands : List Kind)
+    (hreg : ∀ k ∈ cands, k ∈ rkinds g) :
+    (cands.filter (fun k => trig.contains k) = [] ∧ testLoop g trig cands = .ev .quiet) ∨
+    (∃ k e rest, cands.filter (fun k => trig.contains k) = k :: rest ∧ find g k = some e ∧
+       testLoop g trig cands = .ev (reactionEv k e.reaction e.cb)) := by
+  induction cands with
+  | nil => left; exact ⟨rfl, rfl⟩
+  | cons c cs ih =>
+    have hc : c ∈ rkinds g := hreg c (List.mem_cons_self)
+    have ih' := ih (fun k hk => hreg k (List.mem_cons_of_mem _ hk))
+    cases hf : find g c with
+    | none => exact absurd hc (find_none.mp hf)
+    | some e =>
+      by_cases ht : trig.contains c = true
+      · right
+        refine ⟨c, e, cs.filter (fun k => trig.contains k), ?_, hf, ?_⟩
+        · exact List.filter_cons_of_pos (p := fun k => trig.contains k) ht
+        · simp only [testLoop, hf, ht, if_true]
+      · have ht' : trig.contains c = false := by simpa using ht
+        have hfc : List.filter (fun k => trig.contains k) (c :: cs) = List.filter (fun k => trig.contains k) cs :=
+          List.filter_cons_of_neg (p := fun k => trig.contains k) ht
+        have htl : testLoop g trig (c :: cs) = testLoop g trig cs := by
+          simp only [testLoop, hf, ht']; rfl
+        rw [hfc, htl]
+        exact ih'
+
+theorem leStr_trans (a b c : String) : leStr a b = true → leStr b c = true → leStr a c = true := by
+  simp only [leStr, decide_eq_true_eq]; exact String.le_trans
+theorem leStr_total (a b : String) : (leStr a b || leStr b a) = true := by
+  simp only [leStr, Bool.or_eq_true, decide_eq_true_eq]; exact String.le_total a b
+
+/-- the head of the sorted firing candidates precedes every firing candidate -/
+theorem head_least (l : List Kind) (p : Kind → Bool) (k : Kind) (rest : List Kind)
+    (h : (l.mergeSort leStr).filter p = k :: rest) :
+    k ∈ l ∧ p k = true ∧ ∀ k' ∈ l, p k' = true → leStr k k' = true := by
+  have hs := List.pairwise_mergeSort leStr_trans leStr_total l
+  have hsub : List.Pairwise (fun a b => leStr a b = true) ((l.mergeSort leStr).filter p) :=
+    List.Pairwise.sublist List.filter_sublist hs
+  rw [h] at hsub
+  have hk : k ∈ (l.mergeSort leStr).filter p := by rw [h]; exact List.mem_cons_self
+  rw [List.mem_filter, List.mem_mergeSort] at hk
+  refine ⟨hk.1, hk.2, ?_⟩
+  intro k' hk' hp
+  have : k' ∈ (l.mergeSort leStr).filter p := by
+    rw [List.mem_filter, List.mem_mergeSort]; exact ⟨hk', hp⟩
+  rw [h] at this
+  rcases List.mem_cons.mp this with rfl | hr
+  · have := leStr_total k' k'; simpa using this
+  · exact (List.pairwise_cons.mp hsub).1 k' hr
+theorem rkinds_map_reaction (g : Registry) (f : Entry → String) :
+    rkinds (g.map (fun e => { e with reaction := f e })) = rkinds g := by
+  simp [rkinds, List.map_map, Function.comp_def]
+
+theorem rkinds_map_cb (g : Registry) (k : Kind) (cb : Nat) :
+    rkinds (g.map (fun x => if x.kind == k then { x with cb := cb } else x)) = rkinds g := by
+  unfold rkinds
+  rw [List.map_map]
+  apply List.map_congr_left
+  intro x _
+  simp only [Function.comp]
+  split <;> rfl
+
+theorem step_wf (g : Registry) (op : Op) (hw : RegWF g) : RegWF (step g op).1 := by
+  unfold RegWF at *
+  cases op with
+  | register k r cb =>
+    simp only [step]
+    split
+    · exact hw
+    · split
+      · exact hw
+      · rename_i hk _
+        have hk' : k ∉ rkinds g := by simpa using hk
+        simp only [rkinds, List.map_append, List.map_cons, List.map_nil]
+        rw [List.nodup_append]
+        refine ⟨hw, by simp, ?_⟩
+        intro a ha b hb
+        simp at hb; subst hb
+        intro h; subst h; exact hk' ha
+  | unregister k =>
+    simp only [step]
+    split
+    · exact hw
+    · simp only [rkinds]
+      exact (List.Nodup.sublist (List.Sublist.map _ List.filter_sublist) hw)
+  | setState kw =>
+    simp only [step]
+    split
+    · rw [rkinds_map_reaction]; exact hw
+    · exact hw
+  | setcall k cb =>
+    simp only [step]
+    split
+    · exact hw
+    · rw [rkinds_map_cb]; exact hw
+  | getcall k => simp only [step]; split <;> exact hw
+  | contains k => exact hw
+  | test trig args => exact hw
+
+theorem run_wf (g : Registry) (ops : List Op) (hw : RegWF g) : RegWF (run g ops).1 := by
+  induction ops generalizing g with
+  | nil => exact hw
+  | cons op ops ih => simp only [run]; exact ih _ (step_wf g op hw)
+
+/-- every registry reachable from a fresh `ErrorProfile()` has distinct kinds -/
+theorem reachable_wf (ops : List Op) : RegWF (run [] ops).1 := run_wf [] ops List.nodup_nil
+
+theorem mem_contains {g : Registry} {e : Entry} (h : e ∈ g) : g.contains e = true := by simpa using h
+
+theorem filter_length_of_unique (k : Kind) (e : Entry) (hkind : e.kind = k) :
+    ∀ (l : Registry), (rkinds l).Nodup → e ∈ l → (l.filter (fun x => x.kind != k)).length + 1 = l.length := by
+  intro l hl he
+  induction l with
+  | nil => cases he
+  | cons x xs ih =>
+    simp only [rkinds, List.map_cons, List.nodup_cons] at hl
+    rcases List.mem_cons.mp he with rfl | h
+    · have hx : (e.kind != k) = false := by simp [hkind]
+      have hall : xs.filter (fun x => x.kind != k) = xs := by
+        rw [List.filter_eq_self]
+        intro y hy
+        have : y.kind ≠ k := by
+          intro hyk; exact hl.1 (by rw [hkind, ← hyk]; exact List.mem_map_of_mem (f := (·.kind)) hy)
+        simpa using this
+      simp [List.filter, hx, hall]
+    · have hx : (x.kind != k) = true := by
+        have : x.kind ≠ k := by
+          intro hxk; exact hl.1 (by rw [hxk, ← hkind]; exact List.mem_map_of_mem (f := (·.kind)) h)
+        simpa using this
+      simp only [List.filter, hx, List.length_cons]
+      have := ih hl.2 h
+      omega
+
+/-- The registry clauses hold of every call on every registry with distinct kinds. -/
+theorem model_holds (g : Registry) (op : Op) (hw : RegWF g) :
+    holdsStep g op (step g op).2 (step g op).1 = true := by
+  cases op with
+  | register k r cb =>
+    simp only [step, holdsStep]
+    by_cases hk : k ∈ rkinds g
+    · simp [hk, sameEntries_refl]
+    · by_cases hr : r ∈ validReactions
+      · simp [hk, hr]
+        exact fun x hx => Or.inl hx
+      · simp [hk, hr, sameEntries_refl]
+  | unregister k =>
+    simp only [step, holdsStep]
+    cases hf : find g k with
+    | none => simp [sameEntries_refl]
+    | some e =>
+      obtain ⟨hmem, hkind⟩ := find_some hf
+      simp only [beq_self_eq_true, Bool.true_and, Bool.and_eq_true, Bool.not_eq_true', beq_iff_eq,
+        List.all_eq_true, Bool.or_eq_true]
+      refine ⟨⟨?_, ?_⟩, ?_⟩
+      · simp [rkinds]
+      · exact filter_length_of_unique k e hkind g hw hmem
+      · intro x hx
+        by_cases hxk : x.kind = k
+        · left; exact hxk
+        · right; simp [List.mem_filter, hx, hxk]
+  | setState kw =>
+    simp only [step, holdsStep]
+    by_cases hv : validKwR g kw = true
+    · simp only [hv, if_true, beq_self_eq_true, Bool.true_and, List.length_map, List.all_eq_true]
+      intro e he
+      apply mem_contains
+      exact List.mem_map.mpr ⟨e, he, rfl⟩
+    · simp [hv, sameEntries_refl]
+  | setcall k cb =>
+    simp only [step, holdsStep]
+    cases hf : find g k with
+    | none => simp [sameEntries_refl]
+    | some e =>
+      simp only [beq_self_eq_true, Bool.true_and, List.length_map, List.all_eq_true]
+      intro x hx
+      apply mem_contains
+      exact List.mem_map.mpr ⟨x, hx, rfl⟩
+  | getcall k =>
+    simp only [step, holdsStep]
+    cases hf : find g k with
+    | none => simp [sameEntries_refl]
+    | some e => simp [sameEntries_refl]
+  | contains k => simp [step, holdsStep, sameEntries_refl]
+  | test trig args =>
+    simp only [step, holdsStep, sameEntries_refl, Bool.true_and, candidates]
+    generalize (if args.isEmpty = true then rkinds g else args) = cands
+    by_cases hany : (cands.any fun k => !(rkinds g).contains k) = true
+    · simp only [hany, if_true]
+    · simp only [hany, Bool.false_eq_true, if_false]
+      have hreg : ∀ k ∈ cands, k ∈ rkinds g := by
+        intro k hk
+        simp only [List.any_eq_true, not_exists, not_and, Bool.not_eq_true', Bool.not_eq_false] at hany
+        have h2 := hany k hk
+        simpa using h2
+      have hreg' : ∀ k ∈ cands.mergeSort leStr, k ∈ rkinds g := by
+        intro k hk; rw [List.mem_mergeSort] at hk; exact hreg k hk
+      rcases testLoop_spec g trig (cands.mergeSort leStr) hreg' with ⟨h1, h2⟩ | ⟨k, e, rest, h1, h2, h3⟩
+      · rw [h2]
+        have : cands.filter (fun k => trig.contains k) = [] := by
+          rw [List.filter_eq_nil_iff] at h1 ⊢
+          intro a ha; exact h1 a (by rw [List.mem_mergeSort]; exact ha)
+        simp only [this, List.isEmpty_nil, if_true, beq_self_eq_true]
+      · rw [h3]
+        obtain ⟨hkm, hkp, hleast⟩ := head_least _ _ k rest h1
+        have hne : (cands.filter (fun k => trig.contains k)).isEmpty = false := by
+          rw [List.isEmpty_eq_false_iff]
+          intro hnil
+          have : k ∈ cands.filter (fun k => trig.contains k) :=
+            List.mem_filter.mpr ⟨hkm, hkp⟩
+          rw [hnil] at this; cases this
+        simp only [hne, Bool.false_eq_true, if_false, List.any_eq_true]
+        refine ⟨k, List.mem_filter.mpr ⟨hkm, hkp⟩, ?_⟩
+        simp only [Bool.and_eq_true, List.all_eq_true, h2, beq_self_eq_true, and_true]
+        intro k' hk'
+        rw [List.mem_filter] at hk'
+        exact hleast k' hk'.1 hk'.2
+
+/-- "unknown … reactions are refused without changing the profile", and so is a kind registered twice -/
+theorem register_refused_unchanged (g : Registry) (k r : String) (cb : Nat)
+    (h : k ∈ rkinds g ∨ r ∉ validReactions) : step g (.register k r cb) = (g, .keyError) := by
+  simp only [step]
+  by_cases hk : k ∈ rkinds g
+  · simp [hk]
+  · rcases h with h | h
+    · exact absurd h hk
+    · simp [hk, h]
+
+theorem filter_ne_self (g : Registry) (k : Kind) (h : k ∉ rkinds g) : g.filter (fun x => x.kind != k) = g := by
+  rw [List.filter_eq_self]
+  intro y hy
+  have : y.kind ≠ k := fun hyk => h (hyk ▸ List.mem_map_of_mem (f := (·.kind)) hy)
+  simpa using this
+
+theorem find_append_new (g : Registry) (k r : String) (cb : Nat) (h : k ∉ rkinds g) :
+    find (g ++ [⟨k, r, cb⟩]) k = some ⟨k, r, cb⟩ := by
+  unfold find
+  rw [List.find?_append]
+  have : g.find? (fun e => e.kind == k) = none := find_none.mpr h
+  rw [this]; simp [List.find?]
+
+/-- registering a kind and unregistering it again hands back exactly what was registered and leaves the
+registry as it was -/
+theorem register_then_unregister (g : Registry) (k r : String) (cb : Nat)
+    (hk : k ∉ rkinds g) (hr : r ∈ validReactions) :
+    step (step g (.register k r cb)).1 (.unregister k) = (g, .removed r cb) := by
+  have h1 : step g (.register k r cb) = (g ++ [⟨k, r, cb⟩], .ok) := by simp [step, hk, hr]
+  rw [h1]
+  simp only [step, find_append_new g k r cb hk, List.filter_append, filter_ne_self g k hk]
+  simp [List.filter]
+
+/-- when several kinds fire on an item (and every requested kind is registered) the reaction is that of the
+firing kind that sorts first — whatever it is configured to, silent reactions included -/
+theorem test_least_firing_decides (g : Registry) (trig args : List Kind)
+    (hargs : ∀ k ∈ (if args.isEmpty then rkinds g else args), k ∈ rkinds g)
+    (k : Kind) (hk : k ∈ (if args.isEmpty then rkinds g else args)) (hf : trig.contains k = true)
+    (hleast : ∀ k' ∈ (if args.isEmpty then rkinds g else args), trig.contains k' = true → k' = k ∨ ¬ leStr k' k = true) :
+    ∃ e, find g k = some e ∧ (step g (.test trig args)).2 = .ev (reactionEv k e.reaction e.cb) := by
+  simp only [step, candidates]
+  generalize (if args.isEmpty = true then rkinds g else args) = cands at *
+  have hreg' : ∀ k ∈ cands.mergeSort leStr, k ∈ rkinds g := by
+    intro k hk; rw [List.mem_mergeSort] at hk; exact hargs k hk
+  rcases testLoop_spec g trig (cands.mergeSort leStr) hreg' with ⟨h1, _⟩ | ⟨k0, e, rest, h1, h2, h3⟩
+  · rw [List.filter_eq_nil_iff] at h1
+    exact absurd hf (h1 k (by rw [List.mem_mergeSort]; exact hk))
+  · obtain ⟨hkm, hkp, hl⟩ := head_least _ _ k0 rest h1
+    have : k0 = k := by
+      rcases hleast k0 hkm hkp with h | h
+      · exact h
+      · exact absurd (hl k hk hf) h
+    subst this
+    exact ⟨e, h2, h3⟩
+
+/-! non-vacuity: a fresh profile, three kinds registered out of alphabetical order, one refused, a state update,
+an item on which two kinds fire: the one that sorts first decides -/
+def demoOps : List Op :=
+  [.register "sampdup" "raise" 0, .register "empty" "ignore" 0, .register "obsdup" "raise" 3,
+   .register "empty" "warn" 0, .setState [("obsdup", "call")], .getcall "obsdup", .unregister "obsdup",
+   .contains "obsdup"]
+
+example : (run [] demoOps).2 =
+    [.ok, .ok, .ok, .keyError, .ok, .cb 3, .removed "call" 3, .bool false] := by decide
+example : RegWF (run [] demoOps).1 := reachable_wf demoOps
+/-- two kinds fire; visited in sorted order, "obsdup" decides although "sampdup" was registered first -/
+example : testLoop [⟨"sampdup", "raise", 0⟩, ⟨"empty", "ignore", 0⟩, ⟨"obsdup", "call", 3⟩] ["sampdup", "obsdup"]
+    ["empty", "obsdup", "sampdup"] = .ev (.called "obsdup" 3) := by decide
+end Biom.C20.Reg
